@@ -338,7 +338,7 @@ func (w *World) planInstance(k int) {
 	}
 	mainLen := 1 + rng.Intn(maxLen)
 	if maxLen == 127 && rng.Intn(4) != 0 {
-		mainLen = []int{99, 100, 101, 120, 126, 127}[rng.Intn(6)]
+		mainLen = []int{99, 100, 101, 120, 127, 127}[rng.Intn(6)]
 	}
 	main := make([]*gpbft.TipSet, 0, mainLen)
 	ep := base.Epoch
@@ -425,6 +425,20 @@ func (h *host) GetProposal(_ context.Context, instance uint64) (*gpbft.Supplemen
 	h.started[instance] = true
 	if w.Mon != nil {
 		w.Mon.onInput(h, instance, in)
+	}
+	if in.Len() == gpbft.ChainMaxLen && (uint64(w.Sc.Seed)+uint64(h.i))%2 == 0 {
+		// EC is ahead by more than the protocol maximum: the host hands over 129+ tipsets and the
+		// participant has to cut the proposal to the first 128 (which is the input the monitors know)
+		ts := append([]*gpbft.TipSet{}, in.TipSets...)
+		e := ts[len(ts)-1].Epoch
+		for j := 1 + int(uint64(w.Sc.Seed>>4)%40); j > 0; j-- {
+			e++
+			ts = append(ts, &gpbft.TipSet{Epoch: e, Key: []byte(fmt.Sprintf("beyond-the-maximum-%d-%d", instance, j)), PowerTable: ts[0].PowerTable})
+		}
+		if w.Mon != nil {
+			w.Mon.Checks["proposals-longer-than-the-maximum-handed-over"]++
+		}
+		return &sd, &gpbft.ECChain{TipSets: ts}, nil
 	}
 	return &sd, in, nil
 }
